@@ -273,11 +273,11 @@ def gen_vmx(rng, tier, adversarial):
 
 class VmxSuite(Suite):
     name = "vmx"
-    shard = 40
+    shard = 25
     preamble = PRE
 
     def generate(self, rng, tier):
-        n = 3000 if tier == "thorough" else 260
+        n = 3000 if tier == "thorough" else 200
         out = []
         for i in range(n):
             out.append(gen_vmx(rng, tier, adversarial=(i % 5 == 4)))
@@ -540,8 +540,17 @@ class XmlSuite(Suite):
                                   self.signature(case, "list")))
         if not any(f.kind == "impl_vs_spec" for f in fs):
             if got[0] != model[0] or (got[0] == "ok" and got[1] != model[1]):
-                fs.append(Finding("impl_vs_model", f"implementation {got[:3]} model {model}", f"{self.fmt}:model"))
+                sig = self.outside_domain_signature(case, got, model)
+                if sig:
+                    fs.append(Finding("impl_vs_spec", f"implementation {got[:3]}; repaired-code model {model} "
+                                      f"(document outside the theorem's domain for another reason)", sig))
+                else:
+                    fs.append(Finding("impl_vs_model", f"implementation {got[:3]} model {model}", f"{self.fmt}:model"))
         return fs
+
+    def outside_domain_signature(self, case, got, model):
+        """a difference on an out-of-domain document that is a manifestation of an already characterised defect"""
+        return None
 
     def nontrivial(self, case, impl_res, coq_val):
         if case.get("valid") and case.get("expected") and case.get("excluded", 0) > 0:
@@ -733,6 +742,14 @@ class OvfSuite(XmlSuite):
         if exc == "KeyError" and what == "ctor" and case.get("empty_disks"):
             return "ovf:ctor:disk-without-fileref"
         return super().signature(case, what, exc)
+
+    def outside_domain_signature(self, case, got, model):
+        # a <Disk> without fileRef: the unrepaired constructor indexes the references with None (KeyError, or the href of a
+        # File that has no id) where an empty disk has no backing file
+        if case.get("empty_disks") and (got[0] == "err" and got[1] == "KeyError" and got[3] == "ctor" and "None" in got[2]
+                                        or "file-no-id" in case.get("flaws", [])):
+            return "ovf:ctor:disk-without-fileref"
+        return None
 
     def dist(self, case):
         return {"valid": case["valid"], "style": case["style"], "nfiles": min(case["nfiles"], 4),
